@@ -134,6 +134,17 @@ Definition body_equiv_optypes (a b : body) : bool :=
   list_eqb (fun x y => kind_eqb (kind x) (kind y)) (ops a) (ops b) &&
   (length (yielded a) =? length (yielded b))%nat.
 
+(* literal equality of bodies, constants included (correspondence check of the expansions) *)
+Definition src_eqb_full (a b : src) : bool :=
+  match a, b with SCst x, SCst y => x =? y | _, _ => src_eqb a b end.
+Definition body_eqb_full (a b : body) : bool :=
+  list_eqb Z.eqb (argtys a) (argtys b) &&
+  list_eqb (fun x y => kind_eqb (kind x) (kind y) && (rty x =? rty y) && list_eqb src_eqb_full (operands x) (operands y))
+           (ops a) (ops b) &&
+  list_eqb src_eqb_full (yielded a) (yielded b).
+Definition optk_eqb (a b : option kernel) : bool :=
+  match a, b with Some x, Some y => kernel_eqb x y | None, None => true | _, _ => false end.
+
 Definition parsable : list kernel := [KMulK; KAddK; KMacK; KQMacK].   (* order of Kernel.operations *)
 
 Definition recognise_with (eqv : body -> body -> bool) (b : body) : option kernel :=
